@@ -147,6 +147,11 @@ def near_misses(name, secret: bytes, rng, k=4):
     out.append(b + b"x")
     out.append(b"x" + b)
     out.append(b + b" ")
+    # blanks and control bytes inserted anywhere: significant everywhere except where a format documents otherwise (eff())
+    for c in rng.sample([9, 10, 11, 12, 13, 32, 0x1F, 0x7F], 3):
+        i = rng.randrange(len(b) + 1)
+        out.append(b[:i] + bytes([c]) + b[i:])
+    out.append(b + bytes([rng.choice([10, 13, 11, 12])]))
     if len(b) >= 2:
         out.append(b[1:] + b[:1])
     out = [x for x in out if x != b]
